@@ -25,7 +25,7 @@ META = {
         'is_in_window assigns a polygon index only to still-unassigned points, polygons ascending; C12.CAP-SIGN - '
         'is_in_cap is cap_distance >= 0 and cap_distance is negated exactly when cm < 0; C12.CAP-BIT - is_cap_used '
         'tests bit i, the same bit set_use_caps sets and the presets (1 << ncaps) - 1 cover; C12.DOUBLES - a duplicate '
-        'cap bit j > i is cleared only after re-testing that it is currently set (or idempotently). C12.DUP-SYM - both duplicate tests of set_use_caps are two-sided (absolute value); C12.DUP-COND - the condition under which a later cap is dropped equals same-cap OR (complement AND NOT allow_neg_doubles), decided by truth table over the three facts. C12.ONE-CAP - is_in_polygon normalises the rank of XCAPS / CMCAPS of a raw FITS row the way ManglePolygon.__init__ does for rows with a single cap; C12.NUMFMT - when read_mangle_polygons picks the numbers of a line with a regular expression, the pattern matches numbers in exponent notation as a whole (zero instances while the words are split on white space and handed to float()); NOT decided: the '
+        'cap bit j > i is cleared only after re-testing that it is currently set (or idempotently). C12.DUP-SYM - both duplicate tests of set_use_caps are two-sided (absolute value); C12.DUP-COND - the condition under which a later cap is dropped equals same-cap OR (complement AND NOT allow_neg_doubles), decided by truth table over the three facts. C12.ONE-CAP - is_in_polygon normalises the rank of XCAPS / CMCAPS of a raw FITS row the way ManglePolygon.__init__ does for rows with a single cap; C12.NUMFMT - when read_mangle_polygons picks the numbers of a line with a regular expression, the pattern matches numbers in exponent notation as a whole (zero instances while the words are split on white space and handed to float()); C12.MEMO-KEY - a lazily cached value of ManglePolygon (`if <validity test>: self._x = ...`) reads only attributes that appear in its validity test or cannot change after construction (today: the solid angle cached by ManglePolygon.str); NOT decided: the '
         'floating-point geometry itself, agreement across concrete files.'),
     'floors': {'C12.ONE-CAP': 2, 'C12.COLUMNS': 3, 'C12.SLICES': 5, 'C12.ELEM-INDEX': 1, 'C12.ACOS-DOT': 1, 'C12.AND-ALL': 7, 'C12.CAP-SIGN': 2,
                'C12.CAP-BIT': 4, 'C12.DOUBLES': 2, 'C12.DUP-COND': 1, 'C12.DUP-SYM': 2},
